@@ -8,6 +8,7 @@ From V Require Import Model.Transfer Proofs.TransferProofs Proofs.TransferProofs
 From V Require Import Proofs.TransferProofsX1 Proofs.TransferProofsX2 Proofs.TransferProofsX3 Proofs.TransferProofsX4.
 From V Require Import Proofs.TransferProofsX5.
 From V Require Import Model.TransferDims Proofs.TransferProofsD.
+From V Require Import Model.TransferAssoc Proofs.TransferProofsA.
 Import ListNotations.
 Open Scope N_scope.
 
@@ -433,3 +434,38 @@ Example dimension_closure_nonvacuous :
    (1, 0, 0); (2, 1, 0); (5, 0, 0); (8, 20, 0); (1, 0, 0); (2, 1, 0); (4, 12, 0); (5, 0, 0); (7, 12, 0); (9, 20, 12);
    (1, 0, 0); (2, 1, 0); (5, 0, 0); (8, 20, 0); (6, 0, 0); (11, 20, 0)].
 Proof. vm_compute. reflexivity. Qed.
+
+(* ==================================================================== wave 4c: associations are computed per dataset type *)
+(* Model/TransferAssoc.v is RepoExportContext._computeDatasetAssociations as the loop it is (dataset types in the order in
+   which the context met them; collection kinds {TAGGED} plus CALIBRATION only for calibration types).  For EVERY source
+   in which validity ranges exist only for calibration types, every selection and every type order that covers the
+   exported datasets, the loop yields exactly the association lists of `export` -- so import_export_exact (clauses 3, 4)
+   speaks about the code's loop, whatever the order of the saveDatasets calls. *)
+Theorem export_associations_per_type_loop : forall ids cs s b tys, export ids cs s = XOk b ->
+  (forall n, memN n (map d_id (exp_sel ids s)) = true -> exists ty, type_of n s = Some ty /\ In ty tys) ->
+  (forall c n r ty, In (c, n, r) (calibs s) -> type_of n s = Some ty -> is_calib_type ty s = true) ->
+  b_tags b = assoc_tags false s (exp_cnames ids cs s) (map d_id (exp_sel ids s)) tys /\
+  b_calibs b = assoc_calibs false s (exp_cnames ids cs s) (map d_id (exp_sel ids s)) tys.
+Proof. exact export_assoc_is_loop. Qed.
+Print Assumptions export_associations_per_type_loop.
+
+(* the variant that LEAVES the loop at the first dataset type without a resolved collection (seed C19c) loses every
+   validity range when a non-calibration type is met first and only a CALIBRATION collection is exported; met in the
+   other order, or with a TAGGED collection exported as well, nothing is lost *)
+Definition a_src : state :=
+  St [(100, 1); (0, 1)] [(0, 0); (1, 1)] [(0, RUN); (2, TAGGED); (3, CALIB)] [] [D 1 0 0 0; D 2 1 0 0]
+     [(1, (Some 11, true)); (2, (Some 12, true))] [(2, 1)] [(3, 2, (0, 5))].
+Theorem associations_break_variant_refuted :
+  assoc_calibs false a_src [0; 3] [1; 2] [0; 1] = [(3, 2, (0, 5))] /\
+  assoc_calibs true a_src [0; 3] [1; 2] [0; 1] = [] /\
+  assoc_calibs true a_src [0; 3] [1; 2] [1; 0] = [(3, 2, (0, 5))] /\
+  assoc_calibs true a_src [0; 2; 3] [1; 2] [0; 1] = [(3, 2, (0, 5))] /\
+  type_order [1; 2] a_src = [0; 1] /\ type_order [2; 1] a_src = [1; 0].
+Proof. vm_compute. repeat split. Qed.
+Print Assumptions associations_break_variant_refuted.
+
+Example export_associations_loop_nonvacuous :
+  match export [1; 2] [3] a_src with
+  | XOk b => b_calibs b = assoc_calibs false a_src (exp_cnames [1; 2] [3] a_src) [1; 2] (type_order [1; 2] a_src) /\ b_calibs b <> []
+  | XErr _ => False end.
+Proof. vm_compute. split; [reflexivity | discriminate]. Qed.
